@@ -1400,7 +1400,14 @@ impl<B> StreamRef<B> {
 
         me.actions
             .send
-            .reserve_capacity(capacity, &mut stream, &mut me.counts)
+            .reserve_capacity(capacity, &mut stream, &mut me.counts);
+
+        // Lowering a reservation can hand the released capacity to another
+        // stream that has data buffered; the connection task has to be told
+        // that there is something to send.
+        if let Some(task) = me.actions.task.take() {
+            task.wake();
+        }
     }
 
     /// Returns the stream's current send capacity.
